@@ -234,11 +234,14 @@ func (ip *Interp) invoke(rv Value, name string, args []Value) (Value, error) {
 					return nil, ip.memberErr("type", name)
 				}
 			}
+			// concatenation of the arguments as they are at call time
+			snapshot := append([]Value{}, r.Items...)
 			for _, a := range args {
+				src := a.(*VList).Items
 				if a == rv {
-					panic(&Unspec{"合并 with itself"})
+					src = snapshot
 				}
-				for _, it := range a.(*VList).Items {
+				for _, it := range src {
 					r.Items = append(r.Items, it)
 				}
 			}
